@@ -262,6 +262,22 @@ def check_lifecycle(case) -> Result:
         res.bad('C20/self-locking-flag', f'assembled powertrain self_locking={pt.self_locking!r}, model says {mdl.self_locking!r}')
     sl0 = pt.self_locking
     for j, op in enumerate(case['history']):
+        if op['op'] == 'reset' and case.get('later_decl'):
+            # further declarations on the same parts between the run and the reset: a flywheel joined to the tail, the
+            # worm pair declared again with another friction coefficient. The assembled powertrain stays what it was.
+            import gearpy.utils as gu
+            from vp import build as B
+            ld = case['later_decl']
+            try:
+                if ld.get('flywheel'):
+                    gu.add_fixed_joint(master=b.last, slave=B.make_element({'type': 'flywheel', 'J': [1e-6, 'kgm^2']}, 'late'))
+                for i, spec in enumerate(mdl.elements):
+                    if i and spec['link']['kind'] == 'worm' and ld.get('friction') is not None:
+                        gu.add_worm_gear_mating(master=b.elements[i - 1], slave=b.elements[i],
+                                                friction_coefficient=ld['friction'])
+                res.classes += ('later-declarations-before-reset',)
+            except (ValueError, TypeError):
+                res.classes += ('later-declaration-rejected',)
         try:
             S.run_op(b, op)
         except Exception as e:  # noqa
@@ -276,11 +292,21 @@ def check_lifecycle(case) -> Result:
     return res
 
 
+@st.composite
+def s_life(draw):
+    from vp import gen as G
+    case = draw(G.s_case(max_len=5, worm='yes', max_steps=12, histories=('run+continue', 'reset+rerun')))
+    if draw(st.booleans()):
+        case['later_decl'] = {'flywheel': draw(st.booleans()),
+                              'friction': draw(st.sampled_from([None, 0.01, 0.05, 0.3, 0.6, 0.9]))}
+    return case
+
+
 def parts(tier):
     from vp import gen as G
     life = Part('lifecycle', check_lifecycle,
-                strategy=G.s_case(max_len=5, worm='yes', max_steps=12, histories=('run+continue', 'reset+rerun')),
-                examples=60 if tier == 'quick' else 1500, shards=2 if tier == 'quick' else 4)
+                strategy=s_life(),
+                examples=100 if tier == "quick" else 1500, shards=2 if tier == "quick" else 4)
     if tier == 'quick':
         return [Part('assembly', check, strategy=s_case(), examples=1200, shards=4), life]
     return [Part('assembly', check, strategy=s_case(), examples=12000, shards=12), life]
